@@ -109,19 +109,38 @@ def main(argv=None):
     # Verdict stability: solver budgets are wall-clock, so on a loaded machine a feasibility query can time out and
     # send the executor down a path that a calm run prunes; obligations met there may come out refuted or undecided.
     # A refutation that is real is deterministic, so every unit with a refuted / undecided obligation is re-run once
-    # with five-fold budgets and the re-run's verdicts are the ones reported (proofs are proofs in either run).
+    # with three-fold budgets and the re-run's verdicts are the ones reported (proofs are proofs in either run).
     listed = set(f.get('obligation') for f in load_json(os.path.join(VERIF, 'known_findings.json'), {}).get('findings', [])
                  if f.get('property') == pid)
-    shaky = sorted(set(r['unit'] for r in results
-                       if r['crash'] or any(o['status'] != PROVED and o['name'] not in listed for o in r['obligations'])))
+    # a refutation whose replay exhibits a failing input on the real code needs no confirmation
+    replay_cache = {}
+    shaky = set()
+    for r in results:
+        if r['crash']:
+            shaky.add(r['unit'])
+        for o in r['obligations']:
+            if o['status'] == PROVED or o['name'] in listed:
+                continue
+            if o['status'] == REFUTED:
+                oo = dict(o, unit=r['unit'])
+                path = os.path.join(VERIF, 'replays', '%s__%s.py' % (pid, slug(o['name'])))
+                rep = write_and_run_replay(contracts, reg, pid, oo, path)
+                replay_cache[o['name']] = rep
+                if rep[0]:
+                    continue
+            shaky.add(r['unit'])
+    shaky = sorted(shaky)
     if shaky and not os.environ.get('PYVC_NO_RERUN'):
         calm = Config(tier, seed)
-        calm.branch_timeout_ms *= 5
-        calm.quant_branch_timeout_ms *= 5
-        calm.prove_timeout_ms *= 5
+        calm.branch_timeout_ms *= 3
+        calm.quant_branch_timeout_ms *= 3
+        calm.prove_timeout_ms *= 3
         again = run_units(reg, {k: units[k] for k in shaky}, calm, jobs=args.jobs)
         by_unit = {r['unit']: r for r in again}
         results = [by_unit.get(r['unit'], r) for r in results]
+        for r in again:
+            for o in r['obligations']:
+                replay_cache.pop(o['name'], None) if o['status'] != REFUTED else None
         print('re-ran %d unit(s) with larger solver budgets to confirm their verdicts: %s' % (len(shaky), ', '.join(shaky)[:300]))
 
     obligations = {}
@@ -189,11 +208,37 @@ def main(argv=None):
             if f.get('property') == pid and f.get('obligation') == o['name']:
                 kf = f
         path = os.path.join(VERIF, 'replays', '%s__%s.py' % (pid, slug(o['name'])))
-        reproduced, out, note = write_and_run_replay(contracts, reg, pid, o, path)
+        if o['name'] in replay_cache:
+            reproduced, out, note = replay_cache[o['name']]
+        else:
+            reproduced, out, note = write_and_run_replay(contracts, reg, pid, o, path)
         if kf is not None and (kf.get('witness_class') in (None, '', note.get('witness_class'))):
             known_hits.append((o, kf))
             continue
         violations.append((o, path, reproduced))
+
+    # --- thorough tier: the native oracles also search on the real code (bounded stand-in, never counted as proved) ---
+    native_runs = []
+    if tier == 'thorough' and not args.unit and not os.environ.get('PYVC_NO_NATIVE'):
+        seen_bodies = set()
+        maker = getattr(contracts, 'make_replay', None)
+        for r in results:
+            o = {'name': '%s:thorough-native-search' % r['unit'], 'kind': 'bounded', 'unit': r['unit'], 'model': {}, 'backend': 'cpython',
+                 'src': 'thorough tier: the replay oracle of this unit searches small inputs on the real code (bounded stand-in)'}
+            try:
+                body = maker(pid, o, {}) if maker else None
+            except Exception:
+                body = None
+            if body is None or hash(body) in seen_bodies:
+                continue
+            seen_bodies.add(hash(body))
+            path = os.path.join(VERIF, 'replays', '%s__%s.py' % (pid, slug(o['name'])))
+            reproduced, out, note = write_and_run_replay(contracts, reg, pid, o, path, timeout=900)
+            listed = any(f.get('property') == pid and f.get('witness_class') and f.get('witness_class') == note.get('witness_class')
+                         for f in known.get('findings', []))
+            native_runs.append({'unit': r['unit'], 'reproduced': bool(reproduced), 'known_finding': bool(listed)})
+            if reproduced and not listed:
+                violations.append((o, path, True))
 
     # --- evidence ------------------------------------------------------------------
     vac = []
@@ -216,6 +261,7 @@ def main(argv=None):
             'obligations': n_total - len(known_hits),
             'discharged': len(proved),
             'known_finding_obligations': [o['name'] for (o, _kf) in known_hits],
+            'native_oracle_searches_thorough_tier': native_runs,
             # exploration-style counts (one case = one feasible path of the symbolic execution of the real function under
             # its setup, i.e. one distinct sequence of branch / choice decisions)
             'evaluations': paths,
@@ -302,6 +348,10 @@ def main(argv=None):
                  'backend': 'cpython', 'detail': '; '.join(r['incomplete'])[:300], 'model': {}}
             path = os.path.join(VERIF, 'replays', '%s__%s.py' % (pid, slug(o['name'])))
             reproduced, out, note = write_and_run_replay(contracts, reg, pid, o, path)
+            if reproduced and any(f.get('property') == pid and f.get('witness_class') and
+                                  f.get('witness_class') == note.get('witness_class') for f in known.get('findings', [])):
+                print('KNOWN-FINDING: property=%s (bounded native search) %s' % (pid, note.get('witness_class')))
+                reproduced = False
             if reproduced:
                 print('  bounded native search (proof unavailable for unit %s) found a failing input' % r['unit'])
                 print('VIOLATION property=%s replay=%s' % (pid, os.path.relpath(path, VERIF)))
@@ -320,7 +370,7 @@ def main(argv=None):
     return rc
 
 
-def write_and_run_replay(contracts, reg, pid, o, path):
+def write_and_run_replay(contracts, reg, pid, o, path, timeout=120):
     """Build the replay script for a refuted obligation, run it against the real
     code, and return (reproduced, output, note)."""
     os.makedirs(os.path.dirname(path), exist_ok=True)
@@ -343,7 +393,7 @@ def write_and_run_replay(contracts, reg, pid, o, path):
                 'is in the header of this file")\nsys.exit(0)\n')
     with open(path, 'w') as f:
         f.write(header + '\n' + body)
-    reproduced, out = run_replay(path)
+    reproduced, out = run_replay(path, timeout=timeout)
     with open(path, 'a') as f:
         f.write('\n# --- output of this replay when the check ran ---\n')
         for line in out.splitlines()[-40:]:
